@@ -209,7 +209,7 @@ def hostile_phase(tier, seed, col):
     for t, (n, viol, cl) in zip(cts, explore.pmap(concurrent.task3, cts, chunk=1)):
         total += n
         for k, det in viol:
-            col.add(k, {x: det[x] for x in det if x in ('specs', 'start', 'cuts', 'label', 'bound')}, det)
+            col.add(k, {x: det[x] for x in det if x in ('specs', 'start', 'cuts', 'label', 'bound', 'cold')}, det)
     return total, len(items)
 
 
